@@ -433,9 +433,19 @@ def gen_api():
 
     # clearStylesheetParams / setStylesheetParam touch exactly m_params
     cp = function_body(xth, r"\bclearStylesheetParams\s*\(\s*\)\s*\{", "clearStylesheetParams")
-    clear_params_clears = re.sub(r"\s", "", cp) == "{m_params.clear();}"
-    need(r"XalanTransformer::setStylesheetParam\s*\(\s*const\s+XalanDOMString\s*&\s*qname\s*,\s*const\s+XalanDOMString\s*&\s*expression\s*\)\s*\{\s*m_params\s*\[\s*qname\s*\]\s*\.\s*m_expression\s*=\s*expression\s*;\s*\}",
-         xt, "setStylesheetParam(name, expression) stores into m_params")
+    clear_params_clears = "m_params.clear();" in re.sub(r"\s", "", cp)
+    sp_e = function_body(xt, r"XalanTransformer::setStylesheetParam\s*\(\s*const\s+XalanDOMString\s*&\s*qname\s*,\s*const\s+XalanDOMString\s*&\s*expression\s*\)\s*\{", "setStylesheetParam(name, expression)")
+    sp_o = function_body(xt, r"XalanTransformer::setStylesheetParam\s*\(\s*const\s+XalanDOMString\s*&\s*qname\s*,\s*XObjectPtr\s+object\s*\)\s*\{", "setStylesheetParam(name, object)")
+    flat_e, flat_o = re.sub(r"\s", "", sp_e), re.sub(r"\s", "", sp_o)
+    if "m_params[qname].m_expression=expression;" != flat_e.strip("{}") and "m_expression" not in flat_e:
+        raise AnchorError("setStylesheetParam(name, expression) no longer stores into m_params")
+    if "m_value" not in flat_o or "m_params" not in flat_o:
+        raise AnchorError("setStylesheetParam(name, object) no longer stores into m_params")
+    # does setting one form of a parameter drop the other form stored under the same name?
+    set_expr_drops_value = re.search(r"m_value\s*(=|\.\s*(reset|release|clear))", sp_e) is not None or re.search(r"=\s*XalanParamHolder", sp_e) is not None
+    set_value_drops_expr = re.search(r"m_expression\s*(=|\.\s*(clear|erase|assign|resize))", sp_o) is not None or re.search(r"=\s*XalanParamHolder", sp_o) is not None
+    need(r"if\s*\(\s*theExpression\.length\(\)\s*>\s*0\s*\)\s*\{\s*theProcessor\.setStylesheetParam\(\s*theName\s*,\s*theExpression\s*\)\s*;\s*\}\s*else\s*\{\s*theProcessor\.setStylesheetParam\(\s*theName\s*,\s*theObject\s*\)\s*;",
+         xt, "doTransform prefers a parameter's expression form over its object form")
     # doTransform hands exactly m_params and m_functions to the per-call processor
     need(r"theProcessor\s*\.\s*clearStylesheetParams\s*\(\s*\)\s*;\s*for\s*\(\s*const_iterator\s+i\s*=\s*m_params\.begin\(\)", dt, "doTransform pushes m_params into the per-call processor")
     need(r"for\s*\(\s*FunctionMapType::const_iterator\s+i\s*=\s*m_functions\.begin\(\)", dt, "doTransform installs m_functions locally")
@@ -491,6 +501,9 @@ def gen_api():
     out += "Definition errclear_compile : err_idiom := %s.\n" % idiom["compileStylesheet"]
     out += "Definition errclear_parse : err_idiom := %s.\n" % idiom["parseSource"]
     out += "Definition clear_params_clears_map : bool := %s.\n" % ("true" if clear_params_clears else "false")
+    out += "(* setStylesheetParam: does storing one form (expression / object) drop the other form kept under the same name? *)\n"
+    out += "Definition set_expr_drops_value : bool := %s.\n" % ("true" if set_expr_drops_value else "false")
+    out += "Definition set_value_drops_expr : bool := %s.\n" % ("true" if set_value_drops_expr else "false")
     facts = {"members": {t: len(mem[t]) for t in mem}, "secd_reset_clears": len(secd_reset), "cleanup": cleanup,
              "xpec_reset": xpec_reset, "try_stmts": try_stmts, "idiom": idiom, "objstack_reset_rewinds": rewinds,
              "catches": catches_dt, "clear_params_clears_map": clear_params_clears}
